@@ -36,6 +36,8 @@ fn main() {
         #[cfg(rahix_profirust_verif)]
         "c08_user_diag" => profirust::dp::__verif_native_peripheral::c08_user_diag(&rest, seed),
         #[cfg(rahix_profirust_verif)]
+        "c03_lengths" => profirust::dp::__verif_native_peripheral::c03_lengths(&rest, seed),
+        #[cfg(rahix_profirust_verif)]
         "c07_recover" => profirust::dp::__verif_native_peripheral::c07_recover(&rest, seed),
         #[cfg(rahix_profirust_verif)]
         "c17_iter" => profirust::dp::__verif_native_diagnostics::c17_iter(&rest, seed),
